@@ -33,15 +33,16 @@ let amt_of = function
 let state_of s = match s with "u" -> Uncleared | "p" -> Pending | "c" -> Cleared | _ -> failwith "state"
 
 let post_of = function
-  | L [x; payee; xs; pst; L segs; virt; a; cost] ->
+  | L [x; payee; xs; pst; L segs; virt; a; cost; date; inferred] ->
     { p_xact = zatom x; p_payee = hexs (atom payee); p_xstate = state_of (atom xs);
       p_pstate = state_of (atom pst); p_acct = List.map (fun s -> hexs (atom s)) segs;
       p_virtual = batom virt; p_amt = amt_of a;
-      p_cost = (match cost with A "none" -> None | c -> Some (amt_of c)) }
+      p_cost = (match cost with A "none" -> None | c -> Some (amt_of c));
+      p_date = zatom date; p_inferred = batom inferred; p_temp = false }
   | _ -> failwith "post"
 
 let opts_of = function
-  | L [A "opts"; real; st; q; basis; kp; kd; kt; flat; depth; empty] ->
+  | L [A "opts"; real; st; q; basis; kp; kd; kt; flat; depth; empty; bg; en] ->
     { o_real = batom real;
       o_state = (match atom st with "any" -> SAny | "cleared" -> SCleared | "uncleared" -> SUncleared
                                   | "pending" -> SPending | _ -> failwith "stfilter");
@@ -49,6 +50,8 @@ let opts_of = function
           | A "none" -> []
           | L ts -> List.map (function L [A "acct"; h] -> QAcct (hexs (atom h))
                                      | L [A "payee"; h] -> QPayee (hexs (atom h)) | _ -> failwith "query") ts);
+      o_begin = (match bg with A "none" -> None | d -> Some (zatom d));
+      o_end = (match en with A "none" -> None | d -> Some (zatom d));
       o_basis = batom basis; o_kp = batom kp; o_kd = batom kd; o_kt = batom kt;
       o_flat = batom flat;
       o_depth = (match depth with A "none" -> None | d -> Some (zatom d));
